@@ -568,6 +568,16 @@ class Evaluator:
                 # ndarray.__imul__(dask array) is np.multiply(x, d, out=x): Dask's __array_ufunc__ refuses an ndarray as out=
                 raise Raised("NotImplementedError", s, "The out parameter is not fully supported. Received type ndarray, expected Dask Array",
                              origin=(fr.fi.qualname if fr is not None and fr.fi is not None else None))
+            if isinstance(cur, Num) and isinstance(rhs, Num) and cur.shape is not None and rhs.shape and cur.kind != "time" \
+                    and (cur.shape or cur.kind in ("array", "quantity")):
+                # an in-place operator cannot grow its target: x (3,) *= f (2, 1) raises where x * f broadcasts to (2, 3)
+                bs = self.ext._ufunc_broadcast_shape([cur, rhs]) if cur.shape else tuple(rhs.shape)
+                cs = tuple(cur.shape)
+                if bs is not None and len(bs) == len(cs) + (len(bs) - len(cs)) and (len(bs) != len(cs) or any(
+                        sp.simplify(sp.sympify(x_) - sp.sympify(y_)) != 0 and sp.sympify(x_).is_number and sp.sympify(y_).is_number for x_, y_ in zip(bs, cs))):
+                    if len(bs) != len(cs) or all(sp.sympify(x_).is_number for x_ in bs + cs):
+                        raise Raised("ValueError", s, f"non-broadcastable output operand with shape {cs} doesn't match the broadcast shape {tuple(bs)}",
+                                     origin=(fr.fi.qualname if fr is not None and fr.fi is not None else None))
             v = self.binop(s.op, cur, rhs, s, fr)
             self.assign(s.target, v, fr)
             # NumPy's augmented operators work in place: every other name / attribute / container slot of this frame that
@@ -1206,6 +1216,8 @@ class Evaluator:
             if isinstance(r, bool):
                 return BoolV(r if isinstance(op, ast.In) else not r)
             return CondV(r if isinstance(op, ast.In) else sp.Not(r))
+        if any(isinstance(v_, Num) and v_.expr is sp.nan for v_ in (a, b)) and isinstance(op, (ast.Lt, ast.LtE, ast.Gt, ast.GtE, ast.Eq, ast.NotEq)):
+            return BoolV(isinstance(op, ast.NotEq))          # IEEE: every ordered comparison with NaN is False, != is True
         if isinstance(a, self.ext.NdArr) or isinstance(b, self.ext.NdArr):
             other = b if isinstance(a, self.ext.NdArr) else a
             if isinstance(other, self.ext.NdArr) or (isinstance(other, Num) and other.shape and self.ext.nd_materialize(other) is not None):
